@@ -93,6 +93,22 @@ def _agg_field(body, pl, at, depth=5):
     return None
 
 
+def _root_local(body, l, depth=6):
+    """The local a value was copied from, through plain whole-local copies / moves with a single definition."""
+    for _ in range(depth):
+        if 1 <= l <= body.arg_count:
+            break
+        ds = body.defs().get(l, [])
+        if len(ds) != 1 or ds[0][0] != 'stmt':
+            break
+        rv = ds[0][3]['rv']
+        if rv['k'] == 'use' and is_place(rv['op']) and not rv['op']['pl']['p']:
+            l = rv['op']['pl']['l']
+            continue
+        break
+    return l
+
+
 def _partially_assigned(body):
     """Locals that have a field (not behind a dereference) assigned somewhere."""
     pa = getattr(body, '_partial', None)
@@ -475,6 +491,19 @@ def explore(body, tracked=None, summaries=None, max_states=20000, on_call=None):
                 # (`matches!`, `&&`, `||` lower to `_t = const true` / `_t = const false` + switch)
                 ck = ('c', s['lhs']['l'])
                 rv = s['rv']
+                if rv['k'] == 'discr' and not rv['pl']['p']:
+                    # the local whose discriminant this temporary holds (through plain copies: `other = copy b` of a spliced-in
+                    # helper): a later switch on it teaches the path the variant of that local
+                    r0 = _root_local(body, rv['pl']['l'])
+                    if len(body.defs().get(r0, [])) <= 1 and _never_modified(body, [r0]):
+                        env[('dl', s['lhs']['l'])] = r0       # (a local that keeps one value for the whole call)
+                    else:
+                        env.pop(('dl', s['lhs']['l']), None)
+                    if ('v', rv['pl']['l']) not in env and ('v', r0) in env:
+                        env[('v', rv['pl']['l'])] = env[('v', r0)]
+                        env[('va', rv['pl']['l'])] = env.get(('va', r0))
+                elif ('dl', s['lhs']['l']) in env:
+                    del env[('dl', s['lhs']['l'])]
                 if rv['k'] == 'use' and is_const(rv['op']) and const_value(rv['op']) is not None \
                         and len(body.defs().get(s['lhs']['l'], [])) > 1:
                     env[ck] = int(const_value(rv['op'])) if not isinstance(const_value(rv['op']), float) else None
@@ -595,15 +624,32 @@ def explore(body, tracked=None, summaries=None, max_states=20000, on_call=None):
                     e2[dplace] = rest
                     stack.append((t['otherwise'], e2, decisions + ((bb, desc, 'otherwise'),), blocks, calls, ret))
                 continue
-            for v, b in targets:
-                lab = labels.get(v, v)
-                stack.append((b, env, decisions + ((bb, desc, lab),), blocks, calls, ret))
             olab = 'otherwise'
             if labels:
                 rest = [n for v, n in labels.items() if v not in listed]
                 if len(rest) == 1:
                     olab = rest[0]
-            stack.append((t['otherwise'], env, decisions + ((bb, desc, olab),), blocks, calls, ret))
+            # a switch on the discriminant of a plain local teaches the path that local's variant (a second match on the same
+            # value - in a spliced-in helper and in its caller - then takes the same arm)
+            root = env.get(('dl', sl)) if sl is not None else None
+            adt_of_root = None
+            if root is not None and labels:
+                ty = (body.locals[root].get('ty') or '') if root < len(body.locals) else ''
+                adt_of_root = ty.split('<')[0]
+            for v, b in targets:
+                lab = labels.get(v, v)
+                e2 = env
+                if root is not None and labels and v in labels:
+                    e2 = dict(env)
+                    e2[('v', root)] = labels[v]
+                    e2[('va', root)] = adt_of_root
+                stack.append((b, e2, decisions + ((bb, desc, lab),), blocks, calls, ret))
+            e2 = env
+            if root is not None and labels and olab != 'otherwise':
+                e2 = dict(env)
+                e2[('v', root)] = olab
+                e2[('va', root)] = adt_of_root
+            stack.append((t['otherwise'], e2, decisions + ((bb, desc, olab),), blocks, calls, ret))
             continue
         # other terminators: follow successors
         for s in body.succ(bb):
